@@ -155,6 +155,38 @@ fn generalise(m: &str) -> String {
     }
 }
 
+/// A refused text must stay refused however often it is sent and whatever was loaded before: `position fen <valid>;
+/// position fen <bad>; position fen <bad>; show; isready` (and the same without the valid one). After the last command
+/// no game may be shown.
+pub fn check_refusal_is_stable(valid: &str, bad: &str, acc: &mut Acc) {
+    if !matches!(classify(bad).0, Class::Malformed(_)) {
+        return;
+    }
+    for with_valid in [true, false] {
+        let mut script = vec![];
+        if with_valid {
+            script.push(format!("position fen {}", valid));
+        }
+        script.push(format!("position fen {}", bad));
+        script.push(format!("position fen {}", bad));
+        script.push("show".to_string());
+        script.push("isready".to_string());
+        acc.evaluations += 1;
+        match uci_seq(script) {
+            Err(e) => record(acc, "uci-repeat", "session-died", bad, format!("sending a malformed FEN twice killed the session: {}", e)),
+            Ok(t) => {
+                let errors = t.iter().filter(|e| e.starts_with("error:") && !e.starts_with("error: No game to show")).count();
+                let shown = t.iter().rev().nth(1).map(|e| parse_show(e));
+                if errors < 2 || shown != Some(Shown::NoGame) {
+                    record(acc, "uci-repeat", "accepted", bad, format!("a malformed FEN sent twice{}: {} error line(s) instead of 2, and `show` then prints {:?}", if with_valid { format!(" after `position fen {}`", valid) } else { String::new() }, errors, shown));
+                } else {
+                    acc.count("uci: malformed FEN sent twice (with and without a valid one before): refused both times");
+                }
+            }
+        }
+    }
+}
+
 /// the same string through the real UCI session
 pub fn check_string_uci(text: &str, acc: &mut Acc) {
     let (class, parsed) = classify(text);
@@ -363,6 +395,9 @@ pub fn run_local(tier: &str, seed: i64) -> (Acc, Vec<SpaceReport>, usize) {
                 if k % 97 == i % 97 {
                     check_string_uci(s, acc);
                     acc.count("strings through `position fen` + show + isready");
+                }
+                if k % 389 == i % 389 {
+                    check_refusal_is_stable(base, s, acc);
                 }
             }
         }
